@@ -120,6 +120,13 @@ func VerifC01Step() {
 	settled := new(big.Int)
 	ctx := context.Background()
 	op := verifapi.Choose("op", 8)
+	if only := verifapi.Param("only_op", -1); only >= 0 {
+		verifapi.Assume(op == only)
+	}
+	if n := verifapi.Param("conflict_storm", 0); n > 0 {
+		// other requests are being served too: any commit of the operation may hit up to n conflicts
+		verifapi.KVStorm(n)
+	}
 	switch op {
 	case 0: // keep-alive of the client reporting a subset
 		var rep []string
@@ -294,4 +301,46 @@ func VerifC01WithdrawDuringUpdate() {
 	after := pool.VerifTotalCredit(db, nodes, wallets)
 	want := new(big.Int).Sub(before, settledCredit)
 	verifapi.Assert(after.Cmp(want) == 0, "c01.withdrawal-removes-exactly-what-it-settled")
+}
+
+// VerifC01Storm: one keep-alive of a client with one (or two) active hosts
+// on the persistent driver while other requests are being served: every
+// commit of the keep-alive may hit ErrConflict up to n times in a row (KVStorm:
+// an abstraction of any number of concurrent writers). However many conflicts
+// there are, the keep-alive moves credit - it never creates or loses any.
+func VerifC01Storm() {
+	db := newVerifStore()
+	w := &verifWorld{db: db, paid: new(big.Int), hosts: map[store.NodeID]*pool.VerifHost{}}
+	w.wallets = []store.Account{store.Account(verifapi.Wallet(0)), store.Account(verifapi.Wallet(1))}
+	w.dep = &pool.VerifDeposits{Store: db, Deposit: map[store.Account]*big.Int{}}
+	w.p = pool.VerifNewPool(db, w.dep, big.NewInt(60), 60000000000, nil)
+	t0 := time.Unix(1600000000, 0)
+	verifapi.SetNow(t0)
+	client := store.NodeID(verifapi.NodeID(0))
+	nh := verifapi.Param("hosts", 1)
+	w.nodes = []store.NodeID{client}
+	db.SetNode(store.Node{ID: client, Kind: "geth", LastSeen: t0})
+	db.AddNodeBalance(client, big.NewInt(1000))
+	var hosts []string
+	for i := 0; i < nh; i++ {
+		h := store.NodeID(verifapi.NodeID(1 + i))
+		w.nodes = append(w.nodes, h)
+		hosts = append(hosts, string(h))
+		db.SetNode(store.Node{ID: h, IsHost: true, Kind: "geth", LastSeen: t0, URI: "enode://h@192.0.2.1:30303"})
+	}
+	if verifapi.Bool("clientlinked") {
+		db.AddAccountNode(w.wallets[0], client)
+	}
+	db.UpdateNodePeers(client, hosts, 0)
+	verifapi.SetNow(t0.Add(30 * time.Second))
+	before := w.total()
+	verifapi.KVStorm(verifapi.Param("conflict_storm", 6))
+	_, err := pool.VerifUpdate(w.p, context.Background(), string(client), hosts...)
+	verifapi.KVStorm(0)
+	verifapi.Reach("c01.storm")
+	if err != nil {
+		verifapi.Observe("update-error", err.Error())
+	}
+	verifapi.Assert(w.total().Cmp(before) == 0, "c01.sum-preserved")
+	verifapi.Assert(w.total().Cmp(w.statsTotal()) == 0, "c01.stats-total-is-true-sum-after")
 }
